@@ -530,6 +530,9 @@ func (k *Kit) CRLHandlers(net *netsim.Sim, slot int, beh string) {
 	if slot < len(k.Shape.CRL) {
 		kind = k.Shape.CRL[slot]
 	}
+	if kind == "same" && slot > 0 {
+		return // the previous point's URL: its handlers are in place
+	}
 	basePath := k.F.BaseRoute(k.Pos, slot, kind)
 	deltaPath := host + "/delta0.crl"
 	cls := CRLClass(beh)
